@@ -1345,10 +1345,10 @@ static void ProcessIRPNArgs(Boolean CtrlArg, tStrComp const* pArg, void* pUser) 
                     = EvalStrIntExpressionWithFlags(pArg, Int32, &ValOK, &SymbolFlags);
             if (mFirstPassUnknown(SymbolFlags)) {
                 WrStrErrorPos(ErrNum_FirstPassCalc, pArg);
-            } else if (ValOK && pContext->ParamCnt == 0) {
+            } else if (ValOK && pContext->ParamCnt <= 0) {
                 WrStrErrorPos(ErrNum_InvalidParamCountIRPN, pArg);
             }
-            if (!ValOK || mFirstPassUnknown(SymbolFlags) || pContext->ParamCnt == 0) {
+            if (!ValOK || mFirstPassUnknown(SymbolFlags) || pContext->ParamCnt <= 0) {
                 pContext->ErrFlag = True;
             }
         } else if (pContext->ArgCnt <= pContext->ParamCnt) {
